@@ -1,1 +1,118 @@
-def main : IO Unit := pure ()
+import NfcVerif.Model.DlcLlc
+open NfcVerif NfcVerif.Dlc
+
+/-- driver state: the modelled system plus the link configuration and frame boundaries -/
+structure D where
+  s : Sys
+  link : Nat
+  agf : Bool
+  fab : List Nat      -- PDUs per frame in flight A -> B
+  fba : List Nat
+
+def showSt : St → String
+  | .shutdown => "SHUTDOWN" | .established => "ESTABLISHED" | .disconnect => "DISCONNECT" | .closeWait => "CLOSE_WAIT"
+
+def b01 (b : Bool) : String := if b then "1" else "0"
+
+def showPdu : Pdu → String
+  | .i ns nr d => s!"I:{ns}:{nr}:{toHex d}"
+  | .iNone ns d => s!"I:{ns}:None:{toHex d}"
+  | .rr nr => s!"RR:{nr}"
+  | .rnr nr => s!"RNR:{nr}"
+  | .disc => "DISC"
+  | .dm r => s!"DM:{r}"
+  | .frmr f t ns nr vs vr vsa vra => s!"FRMR:{f}:{t}:{ns}:{nr}:{vs}:{vr}:{vsa}:{vra}"
+
+def showOut : Out → String
+  | .i ns _ => s!"I{ns}" | .disc => "DISC" | .dm r => s!"DM{r}" | .frmr .. => "FRMR"
+
+def showRq : Rq → String
+  | .msg d => s!"M{d.length}" | .disc => "DISC" | .dm => "DM"
+
+def showEp (e : Ep) : String :=
+  s!"{showSt e.st},{b01 e.bound},{e.vs},{e.vsa},{e.vr},{e.vra},{e.confs},{e.acks},{b01 e.busy}{b01 e.busySent}{b01 e.sendBusy}," ++
+  "sq=" ++ ";".intercalate (e.sq.map showOut) ++ ",rq=" ++ ";".intercalate (e.rq.map showRq)
+
+def digest (d : D) : String :=
+  s!"A:{showEp d.s.a} B:{showEp d.s.b} w={d.s.wab.length}/{d.s.wba.length}"
+
+def showRes : Res → String
+  | .ok => "ok"
+  | .data d => "ok " ++ toHex d
+  | .none => "none"
+  | .bool b => if b then "true" else "false"
+  | .blocked => "blocked"
+  | .exc e => "exc " ++ e.name
+  | .pdu none => "none"
+  | .pdu (some p) => showPdu p
+  | .pending => "pending" | .done => "done" | .skip => "skip"
+
+def parseSide : String → Option Side
+  | "A" => some .A | "B" => some .B | _ => none
+
+def pushFrame (d : D) (x : Side) (n : Nat) : D :=
+  if n = 0 then d else match x with
+    | .A => { d with fab := d.fab ++ [n] }
+    | .B => { d with fba := d.fba ++ [n] }
+
+def micro (d : D) (x : Side) (op : Op) : D × String :=
+  let r := step d.s x op
+  let d' := { d with s := r.1 }
+  match op with
+  | .deq _ | .ack => (pushFrame d' x (if r.2.toPdu.isSome then 1 else 0), showRes r.2)
+  | _ => (d', showRes r.2)
+
+def handle (d : D) (line : String) : D × String :=
+  match line.splitOn " " with
+  | ["init", a1, a2, a3, a4, b1, b2, b3, b4, l, g] =>
+    match a1.toNat?, a2.toNat?, a3.toNat?, a4.toNat?, b1.toNat?, b2.toNat?, b3.toNat?, b4.toNat?, l.toNat? with
+    | some a1, some a2, some a3, some a4, some b1, some b2, some b3, some b4, some l =>
+      ({ s := init ⟨a1, a2, a3, a4, b1, b2, b3, b4⟩, link := l, agf := g = "1", fab := [], fba := [] }, "ok")
+    | _, _, _, _, _, _, _, _, _ => (d, "bad-op")
+  | ["send", x, h] => match parseSide x, parseHex h with
+    | some x, some m => micro d x (.send m) | _, _ => (d, "bad-op")
+  | ["recv", x] => match parseSide x with
+    | some x => micro d x .recv | _ => (d, "bad-op")
+  | ["busy", x, b] => match parseSide x with
+    | some x => micro d x (.busy (b = "1")) | _ => (d, "bad-op")
+  | ["poll", x, k] => match parseSide x with
+    | some x => (match k with
+      | "recv" => micro d x (.poll .recv) | "send" => micro d x (.poll .send)
+      | "acks" => micro d x (.poll .acks) | _ => (d, "bad-op"))
+    | _ => (d, "bad-op")
+  | ["close", x] => match parseSide x with
+    | some x => micro d x .close | _ => (d, "bad-op")
+  | ["closefin", x] => match parseSide x with
+    | some x => micro d x .closeFin | _ => (d, "bad-op")
+  | ["deq", x, b] => match parseSide x, b.toInt? with
+    | some x, some b => micro d x (.deq b) | _, _ => (d, "bad-op")
+  | ["ack", x] => match parseSide x with
+    | some x => micro d x .ack | _ => (d, "bad-op")
+  | ["collect", x] => match parseSide x with
+    | some x =>
+      let r := collect d.s x d.link d.agf 64
+      let d' := pushFrame { d with s := r.1 } x r.2.length
+      (d', if r.2.isEmpty then "none" else "frame " ++ " ".intercalate (r.2.map showPdu))
+    | _ => (d, "bad-op")
+  | ["deliver", x] => match parseSide x with
+    | some .A => (match d.fba with
+      | [] => (d, "empty")
+      | n :: rest => ({ d with s := deliverN d.s .A n, fba := rest }, s!"ok {n}"))
+    | some .B => (match d.fab with
+      | [] => (d, "empty")
+      | n :: rest => ({ d with s := deliverN d.s .B n, fab := rest }, s!"ok {n}"))
+    | none => (d, "bad-op")
+  | _ => (d, "bad-op")
+
+partial def loop (inp out : IO.FS.Stream) (d : D) : IO Unit := do
+  let line ← inp.getLine
+  if line.isEmpty then
+    out.flush
+    return ()
+  let r := handle d (line.trimAscii.toString)
+  out.putStrLn (r.2 ++ " | " ++ digest r.1)
+  loop inp out r.1
+
+def main : IO Unit := do
+  loop (← IO.getStdin) (← IO.getStdout)
+    { s := init ⟨128, 128, 1, 1, 128, 128, 1, 1⟩, link := 128, agf := false, fab := [], fba := [] }
